@@ -170,10 +170,11 @@ const (
 	opClean
 	opClose
 	opOpenAdd // the handle is opened inside the process, i.e. possibly after others committed
+	opCompactLastTwo
 	nOps
 )
 
-var opNames = []string{"Add", "AddAuto", "CompactAll", "CompactFirstTwo", "Reload", "Clean", "Close", "OpenAdd"}
+var opNames = []string{"Add", "AddAuto", "CompactAll", "CompactFirstTwo", "Reload", "Clean", "Close", "OpenAdd", "CompactLastTwo"}
 
 type procState struct {
 	id        byte
@@ -207,6 +208,10 @@ func runOp(p *procState) {
 	case opCompactFirstTwo:
 		if len(p.st.stack) >= 2 {
 			_, p.err = p.st.compactRange(0, 1, nil)
+		}
+	case opCompactLastTwo:
+		if n := len(p.st.stack); n >= 2 {
+			_, p.err = p.st.compactRange(n-2, n-1, nil)
 		}
 	case opReload:
 		p.err = p.st.reload(true)
@@ -367,6 +372,7 @@ var quickPairs = [][]int{
 	{opAdd, opOpenAdd},
 	{opOpenAdd, opOpenAdd},
 	{opCompactAll, opOpenAdd},
+	{opCompactLastTwo, opCompactAll},
 }
 
 func pickPair() []int {
@@ -377,7 +383,7 @@ func pickPair() []int {
 }
 
 // Harness_C04_pairs: two processes, one operation each: no lost, altered or phantom update; Add succeeds iff committed; only lock failures.
-// bounds: 2 processes (own handles, opened before either runs); operation pairs: Add/Add, CompactAll/Add, CompactAll/Add+auto-compaction, compactRange(0,1)/CompactAll, Add/Clean, CompactAll/reload, Add/Close, Add/open+Add, open+Add/open+Add, CompactAll/open+Add (open+Add: the handle is opened inside the process, so it may be fresh or stale) (thorough: all 64 pairs of the 8 operations); transaction payload byte arbitrary (symbolic); initial stack of 3 tables; every schedule with <= 2 preemptions at visible filesystem steps (thorough 3); sha1 (thorough: sha256 too)
+// bounds: 2 processes (own handles, opened before either runs); operation pairs: Add/Add, CompactAll/Add, CompactAll/Add+auto-compaction, compactRange(0,1)/CompactAll, Add/Clean, CompactAll/reload, Add/Close, Add/open+Add, open+Add/open+Add, CompactAll/open+Add, compactRange(top two)/CompactAll (open+Add: the handle is opened inside the process, so it may be fresh or stale) (thorough: all 81 pairs of the 9 operations); transaction payload byte arbitrary (symbolic); initial stack of 3 tables; every schedule with <= 2 preemptions at visible filesystem steps (thorough 3); sha1 (thorough: sha256 too)
 // covers: done
 func Harness_C04_pairs() {
 	scenario(pickPair(), 3, VerifChoose(1+VerifTier()), 2+VerifTier(), chkFinal|chkErrors)
@@ -889,7 +895,7 @@ func Harness_C12_api() {
 // ---------- C16: sequential failure paths ----------
 
 // Harness_C16_failures: failed and rejected operations, and Close/Clean on any stack, leave nothing behind and never remove a listed table.
-// bounds: sequential: stack of 0..2 tables; one of: Add whose write function fails, Add with limits below the stack (rejected), stale Add (lock failure), empty Add, Clean, Close, CompactAll; then the directory must hold exactly tables.list and the listed tables; also Clean/Close after another process was abandoned in the middle of an Add (leftover temporary and lock files)
+// bounds: sequential: stack of 0..2 tables; one of: Add whose write function fails, Add with limits below the stack (rejected), stale Add (lock failure), empty Add, Clean, Close, CompactAll, a two-table Addition whose second table is rejected and which is then closed (name checking on and off); then the directory must hold exactly tables.list and the listed tables; also Clean/Close after another process was abandoned in the middle of an Add (leftover temporary and lock files)
 // covers: done
 func Harness_C16_failures() {
 	cfg := stackCfg(0)
@@ -902,7 +908,33 @@ func Harness_C16_failures() {
 		return
 	}
 	leftover := false
-	switch VerifChoose(8) {
+	switch VerifChoose(9) {
+	case 8:
+		// a multi-table Addition whose second table is rejected, then closed (with and without name checking)
+		cfg2 := cfg
+		cfg2.SkipNameCheck = VerifChoose(2) == 1
+		st2, err := NewStack(dir, cfg2)
+		VerifAssert(err == nil, "open-skipcheck")
+		if err != nil {
+			return
+		}
+		tr, err := st2.NewAddition()
+		VerifAssert(err == nil, "newaddition")
+		if err != nil {
+			return
+		}
+		ui := tr.nextUpdateIndex
+		VerifAssert(tr.Add(func(w *Writer) error {
+			w.SetLimits(ui, ui)
+			return w.AddRef(&RefRecord{RefName: "x", UpdateIndex: ui, Value: hashWith(20, 1, 1)})
+		}) == nil, "first-table")
+		err = tr.Add(func(w *Writer) error { // same update index again: rejected
+			w.SetLimits(ui, ui)
+			return w.AddRef(&RefRecord{RefName: "y", UpdateIndex: ui, Value: hashWith(20, 1, 1)})
+		})
+		VerifAssert(err != nil, "second-table-must-be-rejected")
+		tr.Close()
+		st2.Close()
 	case 0:
 		err := st.Add(func(w *Writer) error { return fmtError })
 		VerifAssert(err == fmtError, "failing-write-func-error")
